@@ -273,6 +273,42 @@ def build_input(seed: int, opts: dict):
 MAX_FORMS = 17
 
 
+def collapse_worker(job):
+    """indel-rich dense clusters, run with the default node-collapsing parameters and with three
+    binding settings (`--min-nodes-to-collapse` 1-3, `--naa-to-collapse` 3-5): pop-collapsing
+    must not change the peptide set.  No definition needed: pure metamorphic."""
+    seed, tier, opts = job
+    out = {'stats': {}, 'seed': seed}
+    case = None
+    try:
+        case, genome, anno, recs, rng = build_input(seed, dict(
+            per_tx=(4, 7), max_size=4, snv_frac=0.35, window=30, sec_near_start=0.0, context=0.0))
+        if not case.gvfs:
+            out['stats']['empty'] = 1
+            return out
+        kw = default_kw(rng, True, None)
+        kw['miscleavage'] = rng.choice([1, 2, 2, 3])
+        base = gen_ref.run_call_variant(case, tag='cv', **kw)
+        out['desc'] = {'seed': seed, 'kw': kw, 'n_records': len(recs),
+                       'records': [r.id for r in recs]}
+        out['base'] = {'status': base.status, 'real': sorted(base.fasta.keys())}
+        out['runs'] = []
+        for mn, na in rng.sample([(1, 3), (2, 3), (1, 5), (3, 3), (2, 5)], 3):
+            r2 = gen_ref.run_call_variant(case, tag='v', **dict(kw, min_nodes_to_collapse=mn,
+                                                                 naa_to_collapse=na))
+            out['runs'].append({'what': {'min_nodes_to_collapse': mn, 'naa_to_collapse': na},
+                                'status': r2.status, 'real': sorted(r2.fasta.keys())})
+        out['stats']['runs'] = 1
+        return out
+    except Exception:   # noqa
+        out['stats']['worker_error'] = 1
+        out['error'] = traceback.format_exc()[-1500:]
+        return out
+    finally:
+        if case is not None:
+            case.cleanup()
+
+
 def cv_worker(job):
     """one generated single-gene input: real callVariant (+ requested variations) and the
     protocol lines for Spec.callVariant / Spec.witness"""
